@@ -7,6 +7,7 @@ import (
 	"fmt"
 	"go/token"
 	"go/types"
+	"sort"
 	"strings"
 
 	"golang.org/x/tools/go/ssa"
@@ -18,7 +19,7 @@ func init() {
 		Explanation: "Decided: (R1) the supervising actor consults SupervisionStrategy.Supervise exactly once per failure, on its own strategy if set, else the system's; (R2) the one-for-one strategy returns the failing child, the one-for-all strategy the supervisor's children, and the supervision context's accessors return exactly those sets; " +
 			"(R3) every message told while supervising goes to a target, a chained context's target, or the supervisor's parent; (R4) restart / stop / resume / escalate bodies are entered under their own predicate, each does what the directive says, and every decision value enters one of them (unknown ⇒ escalate); " +
 			"(R5) a failure pauses the failing actor's mailbox before its parent is told, and the failure entry is reachable only from the recover block; (R6) no supervision for a failure while handling OnKill, nor OnKilled when the actor is not running or the notice names itself. " +
-			"(R7) the targets recorded in the supervision context (which later resume broadcasts walk) are exactly the strategy's targets that the supervisor paused. NOT decided: the run-time effect of each (decision × strategy × failure site) cell.",
+			"(R7) the targets recorded in the supervision context (which later resume broadcasts walk) are exactly the strategy's targets that the supervisor paused; (R8) the restart marker, which the termination pipeline trusts to choose between clean-up and re-initialisation, is stored only under the success edge of CAS(state, running→killing): a Restart reaching an actor that is already stopping leaves no trace and cannot revive it; (R9 = C05.R4) the restart step installs the new instance before resetting the behaviour stack to its OnReceive. NOT decided: the run-time effect of each (decision × strategy × failure site) cell.",
 		Rules: []Rule{
 			{ID: "C08.R1", Min: 2, Desc: "strategy consulted exactly once; own else system", Fn: c08Consult},
 			{ID: "C08.R2", Min: 4, Desc: "target selection of both strategies and the context accessors", Fn: c08Targets},
@@ -27,19 +28,23 @@ func init() {
 			{ID: "C08.R5", Min: 3, Desc: "failure entry: pause before telling the parent; only from recover", Fn: c08FailureEntry},
 			{ID: "C08.R6", Min: 3, Desc: "no supervision while stopping", Fn: c08NotWhileStopping},
 			{ID: "C08.R7", Min: 2, Desc: "the recorded targets are exactly the targets that were paused", Fn: c08RecordedTargets},
+			{ID: "C08.R8", Min: 1, Desc: "a restart is accepted only by a running actor: the restart marker is stored under the won CAS", Fn: c08RestartAccepted},
+			{ID: "C08.R9", Min: 5, Desc: "restart re-initialisation: new instance, behaviour stack reset to it, hooks, OnLaunch (C05.R4)", Fn: c05Restart},
 		},
 	})
 	register(&Property{
 		ID: "C09",
 		Explanation: "Decided: (R1) every path of the restart step (success and failure) resumes the mailbox; (R2) the termination path resumes it; (R3) the resume decision and both graceful decisions broadcast the resume command to every target along the escalation chain, after the poison message; the broadcast visits every chained context and every target exactly once; " +
 			"(R4) every decision value takes a branch (shared with C08.R4); (R5) zombie: behaviour replaced by the empty one, the restart-failure path tells nobody, a zombie passes the kill CAS, the zombie release path runs the termination cleanup; (R6) a paused mailbox neither spins nor misses the resume: the consumer exits only with the system queue observed empty after the release, re-arms only for eligible work, and Resume wakes (C01.R2/R7/R8). " +
-			"NOT decided: delivery order of the surviving queue at run time, concurrent sibling failures.",
+			"(R8) truth table of the restart step over the results of its hooks: whenever an executed hook reported failure the step marks the actor a zombie and never returns it to running, whatever the other hooks report; (R9 = C01.R6) user messages are popped only under a fresh not-paused observation after every handler call, so mail queued behind a failing message stays queued for the restarted / resumed incarnation. NOT decided: delivery order of the surviving queue at run time, concurrent sibling failures.",
 		Rules: []Rule{
 			{ID: "C09.R1", Min: 1, Desc: "restart step resumes on every path", Fn: c09RestartResumes},
 			{ID: "C09.R2", Min: 2, Desc: "termination resumes; zombie resumes", Fn: c03Parked},
 			{ID: "C09.R3", Min: 5, Desc: "resume broadcast along the escalation chain, after the poison message", Fn: c09Broadcast},
 			{ID: "C09.R4", Min: 1, Desc: "every decision takes a branch", Fn: c08Exhaustive},
 			{ID: "C09.R5", Min: 4, Desc: "zombie discipline", Fn: c09Zombie},
+			{ID: "C09.R8", Min: 4, Desc: "a failed restart hook decides: zombie, whatever later hooks return", Fn: c09HookDecides},
+			{ID: "C09.R9", Min: 3, Desc: "a paused mailbox hands no user message over (C01.R6 pause gate)", Fn: c01PauseGate},
 			{ID: "C09.R7", Min: 2, Desc: "everything that was paused is recorded as a target (so the resume broadcast reaches it)", Fn: c08RecordedTargets},
 			{ID: "C09.R6", Min: 7, Desc: "paused mailbox neither spins nor misses the resume (a pending system message — the resume command — always re-arms)", Fn: func(p *Program, r *Report) { c01Release(p, r); c01NoSpin(p, r); c01Resume(p, r) }},
 		},
@@ -1134,4 +1139,168 @@ func c08RecordedTargets(p *Program, r *Report) {
 	}
 	once, why := g.loopExactlyOnce(pauses)
 	r.Check(okP && nP > 0 && once, "the paused set is the set handed to apply-decision", s.OnSupervise.Pos(), "the pause command is told (as a system message, once per element) to the elements of the very slice that apply-decision records as targets "+why)
+}
+
+// c08RestartAccepted: see the explanation (R8).
+func c08RestartAccepted(p *Program, r *Report) {
+	lc := lcOrFail(p, r)
+	if lc == nil {
+		return
+	}
+	n := 0
+	for _, a := range p.fieldAccesses(map[*types.Var]bool{lc.RestartingF: true}) {
+		st, ok := a.In.(*ssa.Store)
+		if !ok || a.Fresh || isNilConst(st.Val) {
+			continue
+		}
+		n++
+		g := p.ig(a.Fn)
+		_, succ, _ := p.casEdges(g, lc.State, &lc.Killing)
+		r.Check(len(succ) > 0 && g.DominatedByEdges(a.Node, succ), "restart marker stored in "+fnName(a.Fn), st.Pos(),
+			"the store of the restart message into the context is dominated by the success edge of CAS(state, running→killing): an actor that is already stopping (or dead) ignores a Restart completely")
+	}
+	if n == 0 {
+		r.Unresolved("no store of a restart message into the context")
+	}
+}
+
+// c09HookDecides: truth table of the restart step over the results of its hooks (see R8).
+func c09HookDecides(p *Program, r *Report) {
+	lc := lcOrFail(p, r)
+	if lc == nil {
+		return
+	}
+	fn := lc.HandleRestart
+	// hooks: calls whose closure argument invokes an actor hook; identified as the calls of one same bool-returning module
+	// function that are made from the restart step with a closure argument
+	var hooks []*ssa.Call
+	for _, b := range fn.Blocks {
+		for _, in := range b.Instrs {
+			c, ok := in.(*ssa.Call)
+			if !ok || c.Call.StaticCallee() == nil || !p.inModule(c.Call.StaticCallee()) {
+				continue
+			}
+			res := c.Call.StaticCallee().Signature.Results()
+			if res.Len() != 1 || !isBool(res.At(0).Type()) {
+				continue
+			}
+			hasClosure := false
+			for _, a := range c.Call.Args {
+				if _, isMC := strip(a).(*ssa.MakeClosure); isMC {
+					hasClosure = true
+				}
+			}
+			if hasClosure {
+				hooks = append(hooks, c)
+			}
+		}
+	}
+	if len(hooks) < 2 {
+		r.Unresolved("hook invocations of the restart step (bool-returning calls taking a closure)")
+		return
+	}
+	name := map[ssa.Instruction]string{}
+	for i, h := range hooks {
+		name[h] = fmt.Sprintf("hook%d", i+1)
+	}
+	spec := guardSpec{
+		Atoms: func(in ssa.Instruction) (string, bool) {
+			if u, ok := in.(*ssa.UnOp); ok && u.Op == token.MUL {
+				if f, _ := fieldAddr(u.X); f == lc.Continue {
+					return "continue", true
+				}
+				if f, _ := fieldAddr(u.X); f == lc.Restarting {
+					return "restarting", true
+				}
+			}
+			return "", false
+		},
+		Event: func(in ssa.Instruction) string { return "" },
+		Classify: func(in ssa.Instruction) string {
+			if st, ok := in.(*ssa.Store); ok {
+				if f, _ := fieldAddr(st.Addr); f == lc.Zombie {
+					if b, isC := constBool(st.Val); isC && b {
+						return "zombie"
+					}
+				}
+			}
+			if a := atomicCall(in); a != nil && a.Field == lc.State && a.Op == "Store" && len(a.Args) > 0 {
+				if v, isC := constInt(a.Args[0]); isC && v == lc.Running {
+					return "running"
+				}
+			}
+			return ""
+		},
+	}
+	// hook results are atoms too, and their execution is an event
+	baseAtoms := spec.Atoms
+	spec.Atoms = func(in ssa.Instruction) (string, bool) {
+		if nm, ok := name[in]; ok {
+			return nm, true
+		}
+		return baseAtoms(in)
+	}
+	// guardEval assigns atoms before events are recorded; record execution through a wrapper on Atoms
+	for mask := 0; mask < 1<<len(hooks); mask++ {
+		cell := map[string]gval{"continue": {known: true, isB: true, b: true}, "restarting": {known: true, isB: true, b: true}}
+		var failed []string
+		for i := range hooks {
+			ok := mask&(1<<i) != 0
+			cell[fmt.Sprintf("hook%d", i+1)] = gval{known: true, isB: true, b: ok}
+			if !ok {
+				failed = append(failed, fmt.Sprintf("hook%d", i+1))
+			}
+		}
+		var executed []map[string]bool
+		var cur map[string]bool
+		spec2 := spec
+		spec2.Atoms = func(in ssa.Instruction) (string, bool) {
+			nm, ok := spec.Atoms(in)
+			if ok && strings.HasPrefix(nm, "hook") && cur != nil {
+				cur[nm] = true
+			}
+			return nm, ok
+		}
+		_ = executed
+		// evaluate once per path: guardEval forks internally, so execution is tracked per outcome by re-evaluating with the
+		// failing hooks' execution made visible as events
+		spec2.Event = func(in ssa.Instruction) string {
+			if nm, ok := name[in]; ok {
+				return "ran:" + nm
+			}
+			return ""
+		}
+		// Event is not called for atoms; make hook calls non-atoms for the event pass by pre-seeding their values through Bind
+		outs := p.guardEvalHooks(fn, spec2, cell, name)
+		good := len(outs) > 0
+		var desc []string
+		for _, o := range outs {
+			desc = append(desc, o.Class+"["+strings.Join(o.Events, ",")+"]")
+			ranFailed := false
+			for _, e := range o.Events {
+				for _, f := range failed {
+					if e == "ran:"+f {
+						ranFailed = true
+					}
+				}
+			}
+			if ranFailed && o.Class != "zombie" {
+				good = false
+			}
+			if !ranFailed && o.Class != "running" && o.Class != "zombie" {
+				good = false
+			}
+			if len(failed) == 0 && o.Class != "running" {
+				good = false
+			}
+		}
+		sort.Strings(desc)
+		r.Check(good, fmt.Sprintf("restart step with failing hooks %v", failed), fn.Pos(), "whenever a hook that ran reported failure the step ends in the zombie branch and never stores state=running; with no failure it returns to running; evaluated: "+strings.Join(desc, " "))
+	}
+}
+
+// guardEvalHooks: guardEval where the instructions of `hooks` are atoms (value from the cell) AND recorded as events.
+func (p *Program) guardEvalHooks(fn *ssa.Function, spec guardSpec, cell map[string]gval, hooks map[ssa.Instruction]string) []guardOutcome {
+	spec.AtomEvents = true
+	return p.guardEval(fn, spec, cell)
 }
